@@ -13,21 +13,23 @@ import (
 
 // ExecMode selects what the executor conformance run varies.
 type ExecMode struct {
-	Faults    bool // err / null / list / type outcomes
-	Panics    bool // panic outcomes (C04)
-	DirFaults bool // directive err/null(/panic)
-	Scheds    bool // gated schedules (C06)
-	IntFaults bool // field / root-field interceptor err/panic
-	ArgFaults bool // failing / panicking input unmarshaler in arguments
-	HTTP      bool // run through handler.Server + POST transport; allows marshal-time panics (Boom = "panic")
-	Mutations bool // include mutation operations
-	Subs      bool // subscription operations only (GqlSubTrace)
-	Defer     bool // @defer in operations (C13 uses its own trace module)
-	Module    string
-	Config    string
-	PlansPer  int
-	Procs     int
-	Lines     func(*Scenario) [][]byte
+	Faults         bool     // err / null / list / type outcomes
+	Panics         bool     // panic outcomes (C04)
+	DirFaults      bool     // directive err/null(/panic)
+	Scheds         bool     // gated schedules (C06)
+	IntFaults      bool     // field / root-field interceptor err/panic
+	ArgFaults      bool     // failing / panicking input unmarshaler in arguments
+	Transports     []string // also run every k-th scenario over these real transports ("tp:sse", "tp:mixed", "tp:post") and validate the payloads parsed off the wire like the executor's
+	TransportEvery int
+	HTTP           bool // run through handler.Server + POST transport; allows marshal-time panics (Boom = "panic")
+	Mutations      bool // include mutation operations
+	Subs           bool // subscription operations only (GqlSubTrace)
+	Defer          bool // @defer in operations (C13 uses its own trace module)
+	Module         string
+	Config         string
+	PlansPer       int
+	Procs          int
+	Lines          func(*Scenario) [][]byte
 	// Classify names the finding class of a rejection (default RejectKey); DevConfig,
 	// when set, is a deviation-tolerant config under which rejected scenarios are
 	// validated again so that the rest of their trace is still checked.
@@ -408,6 +410,20 @@ func ExecConformance(c *Check, prop string, bins map[string]string, vs []Variant
 			cp.Variant = v.ID()
 			cp.Result = nil
 			scs = append(scs, &cp)
+		}
+		if len(m.Transports) > 0 {
+			every := m.TransportEvery
+			if every < 1 {
+				every = 1
+			}
+			n := len(scs)
+			for i := 0; i < n; i += every {
+				tp := m.Transports[(i/every)%len(m.Transports)]
+				cp := *scs[i]
+				cp.ID += "-" + strings.ReplaceAll(tp, ":", "")
+				cp.Mode, cp.ParseTP = tp, true
+				scs = append(scs, &cp)
+			}
 		}
 		if err := RunScenarios(bins[v.ID()], scs, m.Procs, m.Env); err != nil {
 			Infra("run %s: %v", v.ID(), err)
